@@ -653,7 +653,7 @@ func report(cfg *Config, results []*HarnessResult, files, pats []string, loadS, 
 					lines = append(lines, fmt.Sprintf("  harness=%s assertion=%q sat on %d of %d path instance(s); inputs=%v", r.Name, l, st.Sat, inst, st.FirstSat.Values))
 				}
 			case st.Unknown > 0:
-				inconclusive = append(inconclusive, fmt.Sprintf("%s/%s: %d of %d instance(s) undecided (%s)", r.Name, l, st.Unknown, inst, st.FirstUnknown.Note))
+				inconclusive = append(inconclusive, fmt.Sprintf("%s/%s: %d of %d instance(s) undecided (%s; first on Choose path %v)", r.Name, l, st.Unknown, inst, st.FirstUnknown.Note, st.FirstUnknown.Choices))
 			default:
 				if inst > 0 || st.Trivial > 0 {
 					discharged++
